@@ -298,6 +298,23 @@ def run_case(inputs, output, sd, ssa, ops, tracked, orders, rec_order=None, rec_
                 fire("peak_size(order) == simulation")
         except Exception as e:  # noqa: BLE001
             return "cost accessors raised", f"{type(e).__name__}: {str(e)[:120]}"
+        if ops:
+            # giving the indices back (a sliced or a projected one alike) must bring back the figures of the plain tree
+            try:
+                back = tree.copy()
+                for ix, _v in reversed(ops):
+                    back.restore_ind_(ix)
+                spec0 = spec_costs(inputs, output, sd, ssa, ())
+                want0 = {"flops": spec0["total_flops"], "write": spec0["total_write"], "size": spec0["max_size"]}
+                if back.nslices != 1:
+                    return "nslices wrong after restoring the indices", f"nslices={back.nslices} on a tree without sliced indices"
+                got0 = back.contract_stats()
+                for k in ("flops", "write", "size"):
+                    if got0.get(k) != want0[k]:
+                        return f"contract_stats()['{k}'] wrong after restoring the indices", f"reported {got0.get(k)}, definition gives {want0[k]}"
+                fire("after restore_ind of every removed index: contract_stats == definition of the plain tree")
+            except Exception as e:  # noqa: BLE001
+                return "restoring the indices raised", f"{type(e).__name__}: {str(e)[:120]}"
 
         if not do_record:
             return None
